@@ -201,4 +201,38 @@ def onInstr (ins : Expr) : Except Err Action :=
         else .ok .keep
       | _ => .ok .keep
 
+/-- the instruction after `on_block` handled it (tree view): `replace_by(Const)` makes every user see
+    the constant; a chain rewrite re-links `a` and `b` and keeps type and operation -/
+def applyAction (ins : Expr) : Action → Expr
+  | .skip | .keep => ins
+  | .replace ty v => .const ty v
+  | .rechain a ty v =>
+    match ins with
+    | .binop t op _ _ => .binop t op a (.const ty v)
+    | _ => ins
+
+/-- `on_block` over a whole single-block function, seen from the returned value: operands are
+    earlier instructions of the block, so they have been handled (and possibly replaced) before the
+    instruction that uses them -/
+def passTree : Expr → Except Err Expr
+  | .const ty v => .ok (.const ty v)
+  | .other ty id => .ok (.other ty id)
+  | .cast ty src =>
+    match passTree src with
+    | .error e => .error e
+    | .ok src' =>
+      match onInstr (.cast ty src') with
+      | .error e => .error e
+      | .ok act => .ok (applyAction (.cast ty src') act)
+  | .binop ty op a b =>
+    match passTree a with
+    | .error e => .error e
+    | .ok a' =>
+      match passTree b with
+      | .error e => .error e
+      | .ok b' =>
+        match onInstr (.binop ty op a' b') with
+        | .error e => .error e
+        | .ok act => .ok (applyAction (.binop ty op a' b') act)
+
 end Model.ConstFold
